@@ -105,8 +105,23 @@ bool RecBackend::IsMIP() const {
   return m != 0;
 }
 
+void RecBackend::ObjPriorities(ArrayRef<int> p) { st_.Log("{\"ev\":\"objpriorities\",\"v\":" + rec::ints(p) + "}"); }
+void RecBackend::ObjWeights(ArrayRef<double> w) { st_.Log("{\"ev\":\"objweights\",\"v\":" + rec::dbls(w) + "}"); }
+
 void RecBackend::Solve() {
   st_.Log("{\"ev\":\"solve\"}");
+  if (need_multiple_solutions()) {
+    int n = 0;
+    if (const char *e = std::getenv("RECSOLVER_NSOL")) n = std::atoi(e);
+    for (int i = 0; i < n; ++i) {
+      st_.Log("{\"ev\":\"altsol\",\"i\":" + std::to_string(i) + "}");
+      if (std::getenv("RECSOLVER_NSOL_VECTORS"))     // non-empty primal/dual vectors (zeros, generously sized)
+        ReportIntermediateSolution({std::vector<double>(st_.nvars + 64, 0.0),
+                                    std::vector<double>(st_.n_lin + st_.n_quad + st_.n_other + 4096, 0.0), {double(i)}});
+      else
+        ReportIntermediateSolution({{}, {}, {double(i)}});
+    }
+  }
   rec_fault("solve");                                      // C09: RECSOLVER_FAULT=solve:<kind>
   RecDumpLinks(GetValuePresolver());                       // C19: RECSOLVER_LINKS=<file>
   if (const char *l = std::getenv("RECSOLVER_LINKS")) if (*l == '1') RecLogFinalLinks(GetValuePresolver(), st_);  // C20: RECSOLVER_LINKS=1
